@@ -59,7 +59,7 @@ def read_pairs(segs, out_line):
             if not m:
                 return None
             tok = m.group(0)
-            pairs.append((lab["t"], lab["v"], tok))
+            pairs.append((lab["t"], lab["v"], tok, text))
             pos = m.end()
         else:
             if out_line[pos:pos + len(text)] != text:
@@ -190,6 +190,7 @@ def check_case(ctx, case):
     ctx.ev()
     # parse the dump
     dmap = {}
+    dtext = {}
     rev = {}
     parsed = []
     if dump_lines and dump_lines[-1] == "":
@@ -212,6 +213,7 @@ def check_case(ctx, case):
             return
         dmap[ko] = ka
         rev[ka] = ko
+        dtext[ko] = parts[1]
         parsed.append((ko, ka))
     ref = ipref.Ref(fcfg, renew=32)
     for (ver, o), (_, a) in parsed:
@@ -232,7 +234,7 @@ def check_case(ctx, case):
             if pairs is None:
                 ctx.count("lines_unreadable_by_position")  # exactness of substitution is C06's oracle
                 continue
-            for fam, v, tok in pairs:
+            for fam, v, tok, _src in pairs:
                 ver = 4 if fam == "v4" else 6
                 if ver == 4 and ref.untouched4(v):
                     continue
@@ -257,6 +259,11 @@ def check_case(ctx, case):
                 if dmap[(ver, v)][1] != got:
                     ctx.violation(case, "dump-differs-from-applied:v%d" % ver, "%s was replaced by %s but the dump says %s"
                                   % (ipaddress.ip_address(v), tok, ipaddress.ip_address(dmap[(ver, v)][1])))
+                    return
+                if dtext.get((ver, v)) != tok:
+                    # "exactly the replacement that was used": a reader looks the written token up in the map as text
+                    ctx.violation(case, "dump-spells-replacement-differently:v%d" % ver, "%s was replaced by the text %r, the dump lists %r"
+                                  % (ipaddress.ip_address(v), tok, dtext.get((ver, v))))
                     return
                 ctx.distinct((fcfg["salt"], fcfg.get("B4"), fcfg.get("B6"), ver, v))
     ctx.count("dumps_v4_lines", sum(1 for (k, _), _ in parsed if k == 4))
